@@ -255,6 +255,33 @@ fn dummy_env() -> ElementsEnv<Arc<elements::Transaction>> {
     )
 }
 
+/// Tracker that hashes the output bits of every terminal node (jets included), so that the digest
+/// of an execution covers every intermediate result, not only the program's final output.
+struct HashTracker(Fnv);
+
+impl simplicity::bit_machine::ExecTracker for HashTracker {
+    fn visit_node(&mut self, node: &RedeemNode, _input: simplicity::bit_machine::FrameIter, output: simplicity::bit_machine::NodeOutput) {
+        use simplicity::bit_machine::NodeOutput;
+        match output {
+            NodeOutput::Success(mut it) => {
+                self.0.u8(1);
+                let w = node.arrow().target.bit_width().min(4096);
+                for _ in 0..w {
+                    match it.next() {
+                        Some(b) => self.0.u8(u8::from(b)),
+                        None => {
+                            self.0.u8(9);
+                            break;
+                        }
+                    }
+                }
+            }
+            NodeOutput::JetFailed => self.0.u8(2),
+            NodeOutput::NonTerminal => self.0.u8(3),
+        }
+    }
+}
+
 struct DetSatisfier<'b> {
     ctx: types::Context<'b>,
     keys: Vec<(elements::bitcoin::key::XOnlyPublicKey, elements::SchnorrSig)>,
@@ -725,13 +752,16 @@ fn run_op(op: &Op, shared: &[Shared], mine: &mut [Option<Arc<RedeemNode>>], conc
                             }
                         } else {
                             match BitMachine::for_program(&p) {
-                                Ok(mut mac) => match mac.exec(&p, &env) {
-                                    Ok(v) => {
-                                        let bits: Vec<u8> = v.iter_compact().map(u8::from).collect();
-                                        digest_bytes("exec-ok", &[&bits])
+                                Ok(mut mac) => {
+                                    let mut tr = HashTracker(Fnv::new());
+                                    match mac.exec_with_tracker(&p, &env, &mut tr) {
+                                        Ok(v) => {
+                                            let bits: Vec<u8> = v.iter_compact().map(u8::from).collect();
+                                            digest_bytes("exec-ok", &[&bits, &tr.0 .0.to_le_bytes()])
+                                        }
+                                        Err(e) => digest_bytes(&exec_class(&e), &[&tr.0 .0.to_le_bytes()]),
                                     }
-                                    Err(e) => digest_bytes(&exec_class(&e), &[]),
-                                },
+                                }
                                 Err(_) => digest_bytes("limit", &[]),
                             }
                         }
@@ -745,13 +775,16 @@ fn run_op(op: &Op, shared: &[Shared], mine: &mut [Option<Arc<RedeemNode>>], conc
                             }
                         } else {
                             match BitMachine::for_program(&p) {
-                                Ok(mut mac) => match mac.exec(&p, &env) {
-                                    Ok(v) => {
-                                        let bits: Vec<u8> = v.iter_compact().map(u8::from).collect();
-                                        digest_bytes("exec-ok", &[&bits])
+                                Ok(mut mac) => {
+                                    let mut tr = HashTracker(Fnv::new());
+                                    match mac.exec_with_tracker(&p, &env, &mut tr) {
+                                        Ok(v) => {
+                                            let bits: Vec<u8> = v.iter_compact().map(u8::from).collect();
+                                            digest_bytes("exec-ok", &[&bits, &tr.0 .0.to_le_bytes()])
+                                        }
+                                        Err(e) => digest_bytes(&exec_class(&e), &[&tr.0 .0.to_le_bytes()]),
                                     }
-                                    Err(e) => digest_bytes(&exec_class(&e), &[]),
-                                },
+                                }
                                 Err(_) => digest_bytes("limit", &[]),
                             }
                         }
